@@ -154,7 +154,21 @@ def main(argv=None):
     print(f"{pid} tier={a.tier}: {len(jobs)} jobs on {NPROC} processes", flush=True)
     results = run_pool(jobs, scale=1)
     ledger = load_ledger(pid)
-    exp_und = ledger.get("undecided", {})
+
+    class _Und(dict):
+        """expected-undecided table; keys ending in '*' are prefix patterns (hand-curated families of hard leaves)"""
+
+        def get(self, k, default=0):
+            if k in self:
+                return self[k]
+            best = default
+            for pat, n in self.items():
+                if pat.endswith("*") and k.startswith(pat[:-1]):
+                    best = max(best, n)
+            return best
+
+    exp_und = _Und(ledger.get("undecided", {}))
+    exp_und.update(ledger.get("undecided_patterns", {}))
 
     # ---- checker errors
     errors = [r for r in results if r["error"]]
@@ -309,6 +323,7 @@ def main(argv=None):
 
     if a.update_ledger:
         ledger = {
+            "undecided_patterns": load_ledger(pid).get("undecided_patterns", {}),
             "undecided": und_counts,
             "hashes": hashes,
             "counts": {"obligations": n_ob, "proved": len(proved), "jobs": len(jobs)},
